@@ -351,12 +351,13 @@ func cmdCheck(args []string) {
 		}
 	}
 	// judge witnesses (translator validation)
-	witOK, witBad := 0, 0
+	witOK, witBad, witMissing := 0, 0, 0
 	var witDiffs []string
 	badHarness := map[string]bool{}
 	for name, wc := range witCases {
 		r := replayOut[name]
 		if r == nil {
+			witMissing++
 			continue
 		}
 		same := len(r.Failures) == 0 && !r.Hang && (r.Panic == "") && !r.Short && equalStrings(r.Observed, wc.w.Observed)
@@ -442,6 +443,9 @@ func cmdCheck(args []string) {
 			inconcl = append(inconcl, rep.spec.Fn+": vacuous: "+id)
 			totalIncon++
 		}
+	}
+	if witMissing > 0 {
+		fmt.Printf("note: %d sampled witnesses were not replayed (no result from the native run)\n", witMissing)
 	}
 	if replayErr != "" {
 		fmt.Printf("INCONCLUSIVE property=%s reason=%q\n", *prop, "native replay failed: "+truncate(replayErr, 1500))
